@@ -32,6 +32,20 @@ def parse_semver(s):
     return (int(m.group(1)), int(m.group(2)), int(m.group(3)), pre.split(".") if pre else None)
 
 
+REQ_RE = re.compile(r"^v?(0|[1-9]\d*)(?:\.(0|[1-9]\d*))?(?:\.(0|[1-9]\d*))?(?:-([0-9A-Za-z.-]+))?(?:\+([0-9A-Za-z.-]+))?$")
+
+
+def parse_request(s):
+    """the requested version may be written in short form (v3.1, 3): missing parts are 0. Returns (tuple like parse_semver, full tag name)."""
+    m = REQ_RE.match(s)
+    if not m:
+        return None, None
+    ma, mi, pa = int(m.group(1)), int(m.group(2) or 0), int(m.group(3) or 0)
+    pre, build = m.group(4), m.group(5)
+    name = "v%d.%d.%d" % (ma, mi, pa) + ("-" + pre if pre else "") + ("+" + build if build else "")
+    return (ma, mi, pa, pre.split(".") if pre else None), name
+
+
 def _cmp_pre(a, b):
     if a is None and b is None:
         return 0
@@ -120,6 +134,11 @@ def gen_case(rng, i):
         req = rng.choice(neighbours(rng, rng.choice(fulls)))
     else:
         req = gen_version(rng)
+    if rng.random() < 0.15:
+        # short form of a version whose trailing parts are zero (v3.1 means 3.1.0, 3 means 3.0.0)
+        p = parse_semver(req)
+        if p and p[3] is None and "+" not in req:
+            req = ("%d" % p[0]) if rng.random() < 0.3 else "%d.%d" % (p[0], p[1])
     if rng.random() < 0.7:
         req = "v" + req
     return {
@@ -146,6 +165,15 @@ FIXED_CASES = [
      "dirty": "clean", "dryrun": "false", "envloc": ".", "packed": False},
     {"i": -6, "ncommits": 2, "tags": [{"name": "v1.2.3", "annotated": False, "commit": 1}], "version": "v1.3.0",
      "dirty": "untracked", "dryrun": "false", "envloc": "..", "packed": False},
+    # requested version written in short form: the tag created is still the full version tag
+    {"i": -7, "ncommits": 2, "tags": [{"name": "v3.0.0", "annotated": True, "commit": 0}, {"name": "v3", "annotated": True, "commit": 0}], "version": "v3.1",
+     "dirty": "clean", "dryrun": "false", "envloc": ".", "packed": False},
+    {"i": -8, "ncommits": 2, "tags": [{"name": "v3.9.9", "annotated": False, "commit": 0}], "version": "4",
+     "dirty": "clean", "dryrun": "false", "envloc": ".", "packed": False},
+    {"i": -9, "ncommits": 2, "tags": [{"name": "v3.1.0", "annotated": False, "commit": 0}], "version": "v3.1",
+     "dirty": "clean", "dryrun": "false", "envloc": ".", "packed": False},
+    {"i": -10, "ncommits": 2, "tags": [{"name": "v3.0.5", "annotated": False, "commit": 0}], "version": "v3.1",
+     "dirty": "clean", "dryrun": "true", "envloc": ".", "packed": False},
 ]
 
 
@@ -211,7 +239,7 @@ def build_repo(ctx, case):
 
 
 def model(case):
-    req = parse_semver(case["version"])
+    req, _ = parse_request(case["version"])
     fulls = []
     unparseable = False
     for t in case["tags"]:
@@ -249,7 +277,7 @@ def eval_case(ctx, case):
     changed = core.snap_diff(before["refs"], after["refs"])
     other = {k: (before[k], after[k]) for k in ("head", "sym", "index", "status", "worktree") if before[k] != after[k]}
     must_not_mutate = m["dry"] or not m["clean"] or not m["greater"] or m["unparseable"]
-    full = "v" + re.sub(r"^v", "", case["version"])
+    full = parse_request(case["version"])[1]   # the *full* version tag, also when the request was written in short form
     # normalised full tag name: the tool prints the parsed version back; for strict semver input it is identical
     if must_not_mutate:
         if changed or other:
@@ -295,7 +323,7 @@ def body(ctx, replay=None):
         n = 150 if ctx.tier == "quick" else 2500
         cases = list(FIXED_CASES) + [gen_case(ctx.rng, i) for i in range(n)]
         # guarantee the floor: drop requests <= 0.0.0
-        cases = [c for c in cases if parse_semver(c["version"]) and semver_cmp(parse_semver(c["version"]), (0, 0, 0, None)) > 0]
+        cases = [c for c in cases if parse_request(c["version"])[0] and semver_cmp(parse_request(c["version"])[0], (0, 0, 0, None)) > 0]
     ctx.run_cases(cases, eval_case)
     return ctx.finish()
 
